@@ -14,7 +14,7 @@
 (*                         bucket in between, and the spent bucket is lost   *)
 (* C15: the cost admitted for the subnet within the instant never exceeds    *)
 (* the burst.                                                                *)
-EXTENDS Naturals, FiniteSets
+EXTENDS Integers, FiniteSets
 CONSTANTS Proc, Burst, MaxCalls, MaxEnt, AtomicForget
 
 None == 0
